@@ -11,6 +11,13 @@ def array_parameters():
     """6.7.6.2 / 6.7.6.3: every first-dimension form x 0..2 later dimensions x named/abstract/pointer-to-array"""
     first = ["[]", "[3]", "[n]", "[*]", "[static 3]", "[static n]", "[const]", "[const 3]", "[const static 3]", "[static const n]", "[restrict]",
              "[restrict static 2]", "[volatile *]", "[const *]", "[const restrict volatile 4]", "[_Atomic 2]"]
+    # every qualifier (alone and in pairs) in every position 6.7.6.2p1 gives a type-qualifier-list
+    quals = ["const", "volatile", "restrict", "_Atomic"]
+    qsets = quals + ["%s %s" % (a, b) for a in quals for b in quals if a != b]
+    for q in qsets:
+        for form in ("[%s]", "[%s n]", "[%s *]", "[%s static n]", "[static %s n]", "[static %s 3]"):
+            if form % q not in first:
+                first.append(form % q)
     later = ["[3]", "[n]", "[*]", "[2 * n]", "[static 3]", "[const 3]", "[]"]
     out = []
     for f in first:
